@@ -1,6 +1,7 @@
 import CaddyModel.C02.Props
 import CaddyModel.C02.Witness
 import CaddyModel.C02.Key
+import CaddyModel.C02.Quic
 open CaddyModel.C02
 #print axioms current_config_holds_its_addresses
 #print axioms retained_never_unbound
@@ -39,3 +40,7 @@ open CaddyModel.C02
 #print axioms parseAddr_size_pos
 #print axioms usageKey_vs_bookKey_with_permission_bits
 #print axioms usage_key_expression_matches_source
+#print axioms active_is_oldest_open
+#print axioms quic_after_drain_only_new
+#print axioms quic_refs
+#print axioms latest_config_does_not_win
